@@ -139,7 +139,8 @@ class C14(Prop):
                "their product (ICQ) are >= 2^-960, and the sums of |x|, |y|, |xy|, x^2, y^2 and 4 sum|x| sum|y| are <= 2^1000 (exact "
                "rational test in evaluate, also for the two affine variants); otherwise undetermined"]
     assumptions = ["float64 images with dyadic values (sums and products exact); images non-constant over the pixels used; "
-                   "Manders only with a non-zero image sum; block sizes >= 1; n >= 1"]
+                   "Manders only with a non-zero image sum; block sizes >= 1; the 'fraction in [0, 1]' clause for n >= 1 shuffles (n = 0 gives NaN = 0/0 in "
+                   "the code and `none` in the model; compared impl-vs-model only)"]
 
     # ------------------------------------------------------------------ generation
     def gen_pair(self, rng, n):
@@ -237,7 +238,7 @@ class C14(Prop):
         mk = self.gen_mask(rng, shape, [b, b], allow_empty=False)
         return {"kind": "prob", "shape": shape, "x": x, "y": y, "den": rng.choice([1, 4]),
                 "mask": None if rng.random() < 0.25 else mk["data"], "block": b, "partial": rng.random() < 0.5,
-                "n": rng.randint(1, 6), "perm": rng.choice(["random"] * 14 + ["identity", "reverse"]),
+                "n": rng.choice([0] + [1, 2, 3, 4, 5, 6] * 5), "perm": rng.choice(["random"] * 14 + ["identity", "reverse"]),
                 "pseed": rng.randrange(10 ** 9), "gen": [style, "mask:" + mk["kind"]],
                 "layout": rng.choice(["C", "C", "F", "strided"]), "mask_layout": rng.choice(["C", "C", "F"])}
 
@@ -317,6 +318,10 @@ class C14(Prop):
                    "den": 1, "mask": [1] * 400, "block": 3, "partial": part, "n": 3, "perm": "random", "pseed": 6, "gen": ["mask:full"]}
             yield {"kind": "prob", "shape": [5, 7], "x": [(7 * i * i) % 23 for i in range(35)], "y": list(range(35)),
                    "den": 1, "mask": None, "block": 2, "partial": part, "n": 2, "perm": "random", "pseed": 7, "gen": ["mask:none"]}
+            # zero shuffles: the probability is NaN (compared with the model only)
+            yield {"kind": "prob", "shape": [5, 7], "x": [(7 * i * i) % 23 for i in range(35)], "y": list(range(35)),
+                   "den": 1, "mask": None if part else [1] * 30 + [0] * 5, "block": 2, "partial": part, "n": 0, "perm": "random",
+                   "pseed": 8, "gen": ["mask:none" if part else "mask:rows"]}
 
     # ------------------------------------------------------------------ evaluation
     def evaluate(self, case, ctx):
@@ -449,8 +454,9 @@ class C14(Prop):
         mask = with_layout(np.array(case["mask"], dtype=np.float64 if case["mask_float"] else bool).reshape(shape), case.get("mask_layout", "C"))
         x0, m0 = x.copy(), mask.copy()
         # memory layout is part of the input: view_as_blocks copies a working array that is not C-contiguous (np.pad keeps
-        # Fortran order), and then the block assignment is lost; the model takes this as the flag `aliases`
-        aliases = bool(not x.flags.fnc) if pad else bool(x.flags.c_contiguous)
+        # Fortran order), and then the block assignment is lost; the model derives this (`layoutAliases`) from the two
+        # contiguity flags of the argument
+        cC, fC = bool(x.flags.c_contiguous), bool(x.flags.f_contiguous)
         rec = PermRecorder(case["pseed"], case["perm"])
         saved = np.random.permutation
         np.random.permutation = rec
@@ -466,20 +472,26 @@ class C14(Prop):
         finally:
             np.random.permutation = saved
         impl["mask_unchanged"] = bool(mask.dtype == m0.dtype and np.array_equal(mask, m0))
+        impl["mask_after"] = [bool(v) for v in mask.ravel()]
         if pad:
             impl["x_unchanged"] = bool(np.array_equal(x, x0))
+        else:  # in-place mode hands back the argument itself: the argument array afterwards is the result
+            impl["x_after"] = [float(v) for v in x.ravel()]
         n0, n1 = (1, shape[0]) if len(shape) == 1 else shape
         b0, b1 = (1, block[0]) if len(shape) == 1 else block
         good = "raises" not in impl and impl["shape"] == shape
         nidx = rec.calls[0][1] if len(rec.calls) == 1 else None
         rep = ctx.driver.call("c14.shuffle", n0=n0, n1=n1, x=[core.rat(v) for v in x0.ravel()], mask=[bool(v) for v in m0.ravel()],
-                              b0=b0, b1=b1, pad=pad, partial=case["partial"], nidx=nidx, aliases=aliases,
+                              b0=b0, b1=b1, pad=pad, partial=case["partial"], nidx=nidx, c_contig=cC, f_contig=fC,
                               out=[core.rat(v) for v in impl["out"]] if good else None)
-        idx = rep["idx"]
-        model = {"shape": shape, "out": None if rep["model"] is None else [float(unrat(v)) for v in rep["model"]],
-                 "mask_unchanged": True, "perm_arg": idx}
+        idx, aliases = rep["idx"], rep["aliases"]
+        fl = lambda k: None if rep[k] is None else [float(unrat(v)) for v in rep[k]]
+        model = {"shape": shape, "out": fl("model"), "mask_after": rep["mask_after"],
+                 "mask_unchanged": rep["mask_after"] == [bool(v) for v in m0.ravel()], "perm_arg": idx}
         if pad:
-            model["x_unchanged"] = True
+            model["x_unchanged"] = fl("x_after") in (None, [float(v) for v in x0.ravel()])
+        else:
+            model["x_after"] = fl("x_after")
         impl["perm_arg"] = rec.calls[0][0] if len(rec.calls) == 1 else [c[0] for c in rec.calls]
         spec = {"outside_fixed": True, "blocks_from_input": True, "conserved": True, "mask_unchanged": True, "shape": shape}
         impl_spec = dict(rep["spec"] or {}, mask_unchanged=impl["mask_unchanged"], shape=impl.get("shape"))
@@ -491,7 +503,7 @@ class C14(Prop):
             # block indices): the recorded array cannot be interpreted by the model, so only the parts of the model
             # that do not depend on it are compared; the specification relation (Lean, on the implementation's own
             # output) is still demanded in full
-            keys = [k for k in model if k not in ("out", "perm_arg")]
+            keys = [k for k in model if k not in ("out", "perm_arg", "x_after")]
             model_ok = core.canon({k: impl.get(k) for k in keys}) == core.canon({k: model[k] for k in keys})
         impl["spec_verdicts"] = rep["spec"]
         feats = {"shuffle", f"ndim{len(shape)}", "mode:" + case["mode"], "partial:" + str(case["partial"]), "perm:" + case["perm"],
@@ -530,7 +542,7 @@ class C14(Prop):
         try:
             try:
                 r, p = colocal.pearsonr_probablity(x, y, block=case["block"], mask=mask, shuffle_partial=case["partial"], n=n)
-                impl = {"r": float(r), "p": float(p)}
+                impl = {"r": float(r), "p": None if math.isnan(float(p)) else float(p)}  # NaN = None, as in the driver protocol
             except core.InternalError:
                 raise
             except Exception as e:
@@ -543,6 +555,7 @@ class C14(Prop):
         sig_ok = len(rec.calls) == n
         rep = ctx.driver.call("c14.prob", n0=shape[0], n1=shape[1], x=[core.rat(v) for v in x0.ravel()],
                               y=[core.rat(v) for v in y0.ravel()], mask=mlist, block=case["block"], partial=case["partial"],
+                              y_c_contig=bool(y.flags.c_contiguous), y_f_contig=bool(y.flags.f_contiguous),
                               sigmas=[c[1] for c in rec.calls] if sig_ok else [])
         g = lambda k: unrat(rep[k])
         vx, vy, cov = g("var_x"), g("var_y"), g("cov")
@@ -571,15 +584,28 @@ class C14(Prop):
         same_idx = sig_ok and all(c[0] == rep["idx"] for c in rec.calls)
         # the property fixes r, "a fraction in [0, 1]" of the n shuffles and the untouched arguments; which side of r is
         # counted is the mechanism's choice (rs > r) and is compared with the model only
+        # the model's loop state after the run (Lean: probRun, the mask copied inside every call, shuffled = y.copy())
         model = {"r": r, "p_count_in": [sure, sure + near], "perm_args_equal_idx": True, "n_perm_calls": n,
-                 "images_unchanged": True, "mask_unchanged": True}
+                 "images_unchanged": rep["y_unchanged"], "mask_unchanged": rep["mask_unchanged"], "p_is_nan": rep["p"] is None and sig_ok}
+        if sig_ok and any(s["n"] != rep["n_masked"] for s in rep["steps"]):
+            raise core.InternalError("model: a round reads another number of pixels than r (contradicts theorem same_pixels)")
+        if n == 0:
+            # zero shuffles: (rs > r).sum() / 0 is NaN.  "A fraction in [0, 1]" of no shuffles is not defined, so this part of
+            # the text does not apply (n = 0 is taken to be outside "any number of shuffles"); r and the untouched arguments
+            # are still demanded, and the NaN is compared with the model (probability [] = none)
+            spec = {"r": r, "images_unchanged": True, "mask_unchanged": True}
+            ok = "raises" not in impl and impl["images_unchanged"] and impl["mask_unchanged"] and abs(impl["r"] - r) <= tol
+            impl["n_perm_calls"], impl["p_is_nan"] = len(rec.calls), "raises" not in impl and impl["p"] is None
+            return outcome(impl, model, spec, spec_ok=ok, model_ok=ok and sig_ok and impl["p_is_nan"] and model["p_is_nan"],
+                           hyp=False, features=feats | {"n0(p is NaN; fraction clause not applicable)"})
         spec = {"r": r, "p_is_fraction_of_n_in_[0,1]": True, "images_unchanged": True, "mask_unchanged": True}
-        ok = "raises" not in impl and impl["images_unchanged"] and impl["mask_unchanged"]
+        ok = "raises" not in impl and impl["images_unchanged"] and impl["mask_unchanged"] and impl["p"] is not None
         if ok:
             k = impl["p"] * n
             ok = abs(impl["r"] - r) <= tol and 0.0 <= impl["p"] <= 1.0 and abs(k - round(k)) < 1e-9
         spec_ok = ok
-        model_ok = ok and sig_ok and same_idx and sure <= round(impl["p"] * n) <= sure + near
+        model_ok = (ok and sig_ok and same_idx and sure <= round(impl["p"] * n) <= sure + near
+                    and model["images_unchanged"] and model["mask_unchanged"] and not model["p_is_nan"])
         if ok and not same_idx:
             # the implementation draws its randomness differently: the recorded permutations cannot be replayed by the
             # model, so the count of shuffled r above r is not compared; r, the [0, 1] fraction of n and the untouched
